@@ -1,5 +1,6 @@
 import Pendulum.Model.Cal
 import Pendulum.Model.DTOps
+import Pendulum.Model.StartOf
 /-! Model of the weekday navigation of `pendulum.Date` (date.py:463-718) and `pendulum.DateTime`
 (datetime.py:924-1171): `next`, `previous`, `first_of`, `last_of`, `nth_of` for month / quarter / year.
 
@@ -10,10 +11,10 @@ library's field views, proved mutually inverse in `Proofs/CalRT.lean`); `dt.add(
 `calendar.monthcalendar(y, m)[row][wd]` lookups (`mcal`), `range(nth - (1 if ...))` applications of
 `next`, and the three different "still inside the unit?" tests of `_nth_of_month/_quarter/_year`.
 
-**DateTime level.** A value is `DTOps.V` (zone reference, wall µs, fold). Every field change runs through
-`DateTime.create` (`DTOps.create`, which normalises skipped wall times by the DST rule), with the fold
-the code passes (`set/on/at`: `self.fold`; `add`: the default `fold=1`). `DateTime.next/previous` are the
-repaired one-step versions (the unrepaired day-by-day loops did not terminate across a skipped calendar day). -/
+**DateTime level** (repaired tree). A value is `DTOps.V` (zone reference, wall µs, fold). The target day is
+computed on the calendar and its first moment is built by `self._boundary(y, m, d)` (`StartOf.edge`, the model of
+`_boundary` in Model/StartOf.lean); only `next/previous(keep_time=True)` add whole days to the instance
+(`add(days=n)` → `DateTime.create` with the default `fold=1`). -/
 namespace Pendulum.WeekNav
 open Pendulum Pendulum.Cal
 
@@ -162,30 +163,31 @@ def dayOrd (w : Int) : Int := w / DAY + epochOrd
 def tod (w : Int) : Int := w % DAY
 def wallOf (o t : Int) : Int := (o - epochOrd) * DAY + t
 
-/-- `set(year=, month=, day=)` / `on(y, m, d)`: the standard library rejects an impossible date with
-    ValueError; time of day and fold are the instance's; `DateTime.create` normalises -/
-def setYMD (v : V) (y m d : Int) : Except Err V :=
-  if validDate y m d then create v.z (wallOf (ymd2ord y m d) (tod v.w)) v.fold false
-  else .error .valueError
+/-- `self._boundary(y, m, d)` of the repaired tree = `StartOf.edge … last=false` (the model of `_boundary`,
+    Model/StartOf.lean): 00:00 of the given day is created with the instance's fold unless that wall time is skipped or
+    repeated in the zone — then with `fold = int(after > before)`: right after a gap / first occurrence of a repeated
+    midnight, whatever the instance's fold. On an ordinal (the fields of a `date` are always a valid date): -/
+def boundaryOrd (v : V) (o : Int) : Except Err V := StartOf.edge v.z (wallOf o 0) false v.fold
 
-/-- `start_of("day")` = `at(0, 0, 0, 0)` = `set(hour=0, …)` -/
-def startOfDay (v : V) : Except Err V := create v.z (wallOf (dayOrd v.w) 0) v.fold false
+/-- … and on explicit fields: `datetime.datetime(year, month, day, 0, 0, 0, 0)` rejects an impossible date -/
+def boundaryYMD (v : V) (y m d : Int) : Except Err V :=
+  if validDate y m d then boundaryOrd v (ymd2ord y m d) else .error .valueError
 
 /-- `add(days=n)`: wall clock + n days, re-created with the default `fold=1` -/
 def addDays (v : V) (n : Int) : Except Err V := create v.z (v.w + n * DAY) true false
 
 def vdow (v : V) : Int := dow (dayOrd v.w)
 
-/-- repaired `DateTime.next` (fix commit "DateTime.next()/previous() jump straight to the target day"):
-    `dt = self if keep_time else self.start_of("day"); return dt.add(days=(wd - dt.day_of_week - 1) % 7 + 1)` -/
+/-- repaired `DateTime.next`: `days = (wd - self.day_of_week - 1) % 7 + 1`; with `keep_time` `self.add(days=days)`,
+    otherwise `day = self.date().add(days=days); self._boundary(day.year, day.month, day.day)` -/
 def dtNext (v : V) (wd : Int) (keep : Bool) : Except Err V :=
-  (if keep then .ok v else startOfDay v).bind fun dt =>
-  addDays dt ((wd - vdow dt - 1) % 7 + 1)
+  let days := (wd - vdow v - 1) % 7 + 1
+  if keep then addDays v days else boundaryOrd v (dayOrd v.w + days)
 
-/-- repaired `DateTime.previous`: `dt.subtract(days=(dt.day_of_week - wd - 1) % 7 + 1)` -/
+/-- repaired `DateTime.previous` -/
 def dtPrevious (v : V) (wd : Int) (keep : Bool) : Except Err V :=
-  (if keep then .ok v else startOfDay v).bind fun dt =>
-  addDays dt (-((vdow dt - wd - 1) % 7 + 1))
+  let days := (vdow v - wd - 1) % 7 + 1
+  if keep then addDays v (-days) else boundaryOrd v (dayOrd v.w - days)
 
 def dtIterNext : Nat → V → Int → Except Err V
   | 0, v, _ => .ok v
@@ -193,19 +195,18 @@ def dtIterNext : Nat → V → Int → Except Err V
 
 def ymdOf (v : V) : Int × Int × Int := ord2ymd (dayOrd v.w)
 
+/-- `_first_of_month`: `self._boundary(self.year, self.month, 1 | monthcalendar lookup)` -/
 def dtFirstOfMonth (v : V) (wd : Option Int) : Except Err V :=
-  (startOfDay v).bind fun dt =>
-  let (y, m, _) := ymdOf dt
+  let (y, m, _) := ymdOf v
   match wd with
-  | none => setYMD dt y m 1
-  | some wd => setYMD dt y m (firstDom y m wd)
+  | none => boundaryYMD v y m 1
+  | some wd => boundaryYMD v y m (firstDom y m wd)
 
 def dtLastOfMonth (v : V) (wd : Option Int) : Except Err V :=
-  (startOfDay v).bind fun dt =>
-  let (y, m, _) := ymdOf dt
+  let (y, m, _) := ymdOf v
   match wd with
-  | none => let (sy, sm, _) := ymdOf v; setYMD dt y m (daysInMonth sy sm)     -- dt.set(day=self.days_in_month)
-  | some wd => setYMD dt y m (lastDom y m wd)
+  | none => boundaryYMD v y m (daysInMonth y m)
+  | some wd => boundaryYMD v y m (lastDom y m wd)
 
 def dtNthOfMonth (v : V) (nth : Nat) (wd : Int) : Except Err (Option V) :=
   if nth = 1 then (dtFirstOfMonth v (some wd)).map some else
@@ -215,35 +216,38 @@ def dtNthOfMonth (v : V) (nth : Nat) (wd : Int) : Except Err (Option V) :=
   let (y', m', d') := ymdOf dt
   if y' = cy ∧ m' = cm then
     let (y, m, _) := ymdOf v
-    ((setYMD v y m d').bind startOfDay).map some                  -- self.set(day=dt.day).start_of("day")
+    (boundaryYMD v y m d').map some                               -- self._boundary(self.year, self.month, dt.day)
   else .ok none
 
+/-- `self._boundary(self.year, self.quarter * 3 - 2, 1).first_of("month", wd)` -/
 def dtFirstOfQuarter (v : V) (wd : Option Int) : Except Err V :=
   let (y, m, _) := ymdOf v
-  (setYMD v y (quarter m * 3 - 2) 1).bind fun dt => dtFirstOfMonth dt wd
+  (boundaryYMD v y (quarter m * 3 - 2) 1).bind fun dt => dtFirstOfMonth dt wd
 
 def dtLastOfQuarter (v : V) (wd : Option Int) : Except Err V :=
   let (y, m, _) := ymdOf v
-  (setYMD v y (quarter m * 3) 1).bind fun dt => dtLastOfMonth dt wd
+  (boundaryYMD v y (quarter m * 3) 1).bind fun dt => dtLastOfMonth dt wd
 
 def dtNthOfQuarter (v : V) (nth : Nat) (wd : Int) : Except Err (Option V) :=
   if nth = 1 then (dtFirstOfQuarter v (some wd)).map some else
   let (y, m, _) := ymdOf v
-  (setYMD v y (quarter m * 3) 1).bind fun dt =>                   -- self.set(day=1, month=self.quarter * 3)
+  (boundaryYMD v y (quarter m * 3) 1).bind fun dt =>              -- self._boundary(self.year, self.quarter * 3, 1)
   let (year, lastMonth, _) := ymdOf dt
   (dtFirstOfQuarter dt none).bind fun dt =>
   (dtIterNext (nth - (if vdow dt = wd then 1 else 0)) dt wd).bind fun dt =>
   let (y', m', d') := ymdOf dt
   if lastMonth < m' ∨ year ≠ y' then .ok none
-  else ((setYMD v y m' d').bind startOfDay).map some              -- self.on(self.year, dt.month, dt.day).start_of("day")
+  else (boundaryYMD v y m' d').map some                           -- self._boundary(self.year, dt.month, dt.day)
 
+/-- `self._boundary(self.year, 1, 1).first_of("month", wd)` -/
 def dtFirstOfYear (v : V) (wd : Option Int) : Except Err V :=
-  let (y, _, d) := ymdOf v
-  (setYMD v y 1 d).bind fun dt => dtFirstOfMonth dt wd
+  let (y, _, _) := ymdOf v
+  (boundaryYMD v y 1 1).bind fun dt => dtFirstOfMonth dt wd
 
+/-- `self._boundary(self.year, 12, 1).last_of("month", wd)` -/
 def dtLastOfYear (v : V) (wd : Option Int) : Except Err V :=
-  let (y, _, d) := ymdOf v
-  (setYMD v y 12 d).bind fun dt => dtLastOfMonth dt wd
+  let (y, _, _) := ymdOf v
+  (boundaryYMD v y 12 1).bind fun dt => dtLastOfMonth dt wd
 
 def dtNthOfYear (v : V) (nth : Nat) (wd : Int) : Except Err (Option V) :=
   if nth = 1 then (dtFirstOfYear v (some wd)).map some else
@@ -253,7 +257,7 @@ def dtNthOfYear (v : V) (nth : Nat) (wd : Int) : Except Err (Option V) :=
   (dtIterNext (nth - (if vdow dt = wd then 1 else 0)) dt wd).bind fun dt =>
   let (y', m', d') := ymdOf dt
   if year ≠ y' then .ok none
-  else ((setYMD v y m' d').bind startOfDay).map some
+  else (boundaryYMD v y m' d').map some
 
 def dtFirstOf : Unit' → V → Option Int → Except Err V
   | .month => dtFirstOfMonth | .quarter => dtFirstOfQuarter | .year => dtFirstOfYear
